@@ -18,6 +18,7 @@ from ..core import (
     ContainerValueMixin,
     Field,
     Schema,
+    copy_default,
     isconfigtype,
 )
 
@@ -158,7 +159,7 @@ class ListField(Field):
                 self.storage_type = List[type(field)]  # type: ignore
 
     def __setdefault__(self, cfg: Config) -> None:
-        default = self.default
+        default = copy_default(self.default)
         if isinstance(default, list):
             if self.field:
                 default = ListProxy(cfg, self, default)
